@@ -54,3 +54,21 @@ def bytes_in_range(heap, view, lo, n):
 def uint_width(v):
     """smallest legal NonNegativeInteger width"""
     return z3.If(v <= 0xFF, 1, z3.If(v <= 0xFFFF, 2, z3.If(v <= 0xFFFFFFFF, 4, 8)))
+
+
+# big-endian integer value of a byte string of ANY length: uninterpreted ghost function of (row, start, length), pinned
+# down by instantiated axioms for the lengths 0, 1, 2, 4, 8 (the only ones the library produces for numbers)
+BEINT = z3.Function('BEINT', ROW, INT, INT, INT)
+
+
+def beint_term(heap, view):
+    return BEINT(view.row(heap), zint(view.start), zint(view.length))
+
+
+def beint_axioms(heap, view):
+    t = beint_term(heap, view)
+    L = zint(view.length)
+    ax = [t >= 0, z3.Implies(L == 0, t == 0)]
+    for w in (1, 2, 4, 8):
+        ax.append(z3.Implies(L == w, t == zint(be(heap, view, 0, w))))
+    return z3.And(*ax)
